@@ -124,13 +124,13 @@ func (s *scriptRW) takeOut() []outMsg {
 // ---- environment ----------------------------------------------------------------------------------------------
 
 type subEnv struct {
-	pm      *aqua.ProtocolManager
-	bc      *core.BlockChain
-	pool    *recPool
-	genesis *types.Block
-	chain   []*types.Block // blocks 1..subChainLen+2; the last two are valid but not imported
-	rcpts   []types.Receipts
-	td      *big.Int
+	pm       *aqua.ProtocolManager
+	bc       *core.BlockChain
+	pool     *recPool
+	genesis  *types.Block
+	chain    []*types.Block // blocks 1..subChainLen+2; the last two are valid but not imported
+	rcpts    []types.Receipts
+	td       *big.Int
 	peerSeq  int
 	maxAlloc uint64
 	origHead *types.Block
@@ -294,8 +294,8 @@ type subCase struct {
 	Code    uint64
 	Kind    string
 	Label   string
-	Base    int // index into validMsgs (or -1)
-	A, B    int // truncation length / position and mask / index of a short string
+	Base    int    // index into validMsgs (or -1)
+	A, B    int    // truncation length / position and mask / index of a short string
 	Lit     []byte // literal payload for the small enumerations (short strings, queries)
 	Must    bool   // must be handled without error
 	MustErr bool   // must be refused
@@ -439,8 +439,12 @@ func subCases(e *subEnv, valid []subMsg, thorough bool, visit func(subCase) bool
 		for l := 0; l < len(m.payload); l++ {
 			add(m.code, "trunc", "trunc/"+m.name, bi, l, 0, nil)
 		}
+		ms := masks
+		if thorough && len(m.payload) > 160 {
+			ms = valueMasks32 // all 255 values for the short messages, 32 masks for blocks / headers / receipts
+		}
 		for p := 0; p < len(m.payload); p++ {
-			for _, mk := range masks {
+			for _, mk := range ms {
 				add(m.code, "alt", "alt/"+m.name, bi, p, mk, nil)
 			}
 		}
@@ -651,8 +655,14 @@ func (e *subEnv) eval(c subCase, payload []byte) (fs []finding, class string) {
 	for _, m := range resp {
 		total += m.size
 	}
-	if len(resp) > 8 || total > 4*1024*1024 {
-		bad("answers-bounded", c.Kind, map[string]interface{}{"messages": len(resp), "bytes": total})
+	// (header answers: at most MaxHeaderFetch = 192 headers of < 700 bytes each on this chain; everything
+	// else: the 2 MiB soft response limit plus one item)
+	limit := 2*1024*1024 + 256*1024
+	if c.Code == aqua.GetBlockHeadersMsg {
+		limit = 192 * 700
+	}
+	if len(resp) > 8 || total > limit {
+		bad("answers-bounded", c.Kind, map[string]interface{}{"messages": len(resp), "bytes": total, "limit": limit})
 	}
 	// what reached the pool / the chain is what was sent
 	for _, tx := range e.pool.take() {
